@@ -74,3 +74,14 @@ def bitwise_equal_res(a, b, with_errors=True):
 def maxabs(a):
     a = np.asarray(a)
     return float(np.max(np.abs(a))) if a.size else 0.0
+
+
+def noise_floor(*tensor_dicts):
+    """Absolute tolerance floor for relations between tensors: 1e-13 of the largest entry of any order key of the results
+    involved. A key whose entries are themselves rounding residue of a cancellation (1e-16 of the neighbouring keys) must not be
+    judged relative to its own size."""
+    m = 0.0
+    for d in tensor_dicts:
+        for t in d.values():
+            m = max(m, maxabs(t))
+    return 1e-13 * m + 1e-300
